@@ -81,6 +81,20 @@ def generate(tier, rng):
         labs = gen.tree_labels(t)
         tups = [[rng.choice(labs) for _ in range(rng.choice([2, 2, 3, 4]))] for _ in range(12)]
         yield {"fam": "nav", "trees": [t], "ca": tups, "cls": rng.choice(["nm", "light", "eq", "falsy"])}
+    # scale: wide and deep trees (cut-offs such as "above 32 children / ancestors" never engage on small trees)
+    for sh in gen.big_shapes(rng, tier, 300):
+        t = gen.labelled(sh, rng, True)
+        labs = gen.tree_labels(t)
+        dl = gen.deep_labels(t)
+        tups = [[dl[-1]], [dl[-1], dl[-1]], [dl[-1], dl[len(dl) // 2]], [dl[-1], dl[-2], dl[len(dl) // 3]], [dl[-2], dl[-1]]]
+        tups += [[rng.choice(labs) for _ in range(rng.choice([2, 3]))] for _ in range(8)]
+        # siblings / cousins at the bottom of the deepest path
+        from props.C05 import _sub as _subtree
+        par = _subtree(t, dl[-2]) if len(dl) >= 2 else t
+        kids = [c[0] for c in par[1]]
+        if len(kids) >= 2:
+            tups += [kids[:2], kids[-2:], kids[:3]]
+        yield {"fam": "nav", "trees": [t], "ca": tups, "cls": rng.choice(["nm", "light", "eq", "falsy"])}
     for _ in range(150 if tier == "quick" else 2500):
         n0 = rng.randrange(3, 7)
         fl = rng.choice(["nm", "light"])
